@@ -43,8 +43,8 @@ CASE_TIMEOUT_S = 150
 # cannot mask other violations: casts (Cast.__setstate__), internal procedures (member parent lost), INTERFACE bodies and
 # type-bound calls (procedure links dropped), derived types imported by name (DerivedTypeSymbol unpickling), intrinsic
 # calls with keyword arguments (InlineCall.__setstate__), second round trip of modules (Module._ast).
-SLICES = [('base', 0.40), ('casts', 0.09), ('internal', 0.10), ('interfaces', 0.09), ('typedefs', 0.10),
-          ('inline_kwargs', 0.07), ('repickle_module', 0.08), ('all', 0.07)]
+SLICES = [('base', 0.36), ('casts', 0.08), ('internal', 0.09), ('interfaces', 0.08), ('typedefs', 0.09),
+          ('inline_kwargs', 0.07), ('repickle_module', 0.08), ('enriched_imports', 0.09), ('all', 0.06)]
 
 
 def pick_slice(rng):
@@ -117,6 +117,7 @@ def make_source(rng, ctx, idx):
         flags['inline_kwargs'] = on('inline_kwargs')
         if not on('typedefs'):
             flags.update(no_typedefs=True, typebound=False, extends=False, assoc=False)
+        flags['imports_params_only'] = not (on('enriched_imports') or on('typedefs'))
         case = HostileGen(rng, flags).generate()
         return 'hostile', case.text, sl
     f = rng.choice(corpus.list_files())
@@ -135,7 +136,8 @@ def symbol_pairs(orig, copy):
 
 
 def call_links(obj):
-    """[(unit path, call name, kind of link, linked routine name)] with kind in own / own-iface / ext / none."""
+    """[(unit path, call name, kind of link, linked routine name, path of linked routine, path of the scope the call
+    name is attached to)] with kind in own / own-iface / ext / none."""
     from loki import FindNodes
     from loki.ir import nodes as ir
     from loki.program_unit import ProgramUnit
@@ -147,13 +149,14 @@ def call_links(obj):
         if isinstance(s, ProgramUnit) and getattr(s, 'body', None) is not None:
             for c in FindNodes(ir.CallStatement).visit(s.body):
                 rt = c.routine
+                sp = own.get(id(getattr(c.name, 'scope', None)), '')
                 if rt is BasicType.DEFERRED or rt is None:
-                    out.append((p, str(c.name).lower(), 'none', ''))
+                    out.append((p, str(c.name).lower(), 'none', '', '', sp))
                 elif id(rt) in own:
                     out.append((p, str(c.name).lower(), 'own-iface' if '/Interface:' in own[id(rt)] else 'own',
-                                str(rt.name).lower()))
+                                str(rt.name).lower(), own[id(rt)], sp))
                 else:
-                    out.append((p, str(c.name).lower(), 'ext', str(rt.name).lower()))
+                    out.append((p, str(c.name).lower(), 'ext', str(rt.name).lower(), '', sp))
     return out
 
 
@@ -171,22 +174,30 @@ def norm_links(dump, how):
     if dump is None:
         return None
 
+    imported = 'imported=True' in dump      # links of imported symbols lead out of the unit that declares them
+
     def sub(m):
-        if how == 'drop' or m.group(1) != 'own':
+        if how == 'drop' or m.group(1) != 'own' or imported:
             return 'proc=x'
         return 'proc=own-iface' if '/Interface:' in (m.group(2) or '') else 'proc=own'
     d = _LINK.sub(sub, dump)
-    d = re.sub(r'fn=(True|False); ', '', d) if how == 'drop' else d      # is_function is derived from the link
-    d = re.sub(r'; returns=[^;)>]*', '', d) if how == 'drop' else d
+    if how == 'drop' or imported:
+        d = re.sub(r'fn=(True|False); ', '', d)      # is_function / return type are derived from the link
+        d = re.sub(r'; returns=[^;)>]*', '', d)
     return re.sub(r'(typedef=|<)(own|ext):[^;,)>]*', r'\1\2', d)
 
 
-def classify_link_loss(name, before):
-    if 'proc=own-iface' in before:
+def classify_link_loss(name, raw_before, table_path):
+    """Kind of a lost procedure link: the raw dump names the linked routine as proc=own:<path>."""
+    m = re.search(r'proc=own:([^;,)>]*)', raw_before or '')
+    linked = m.group(1) if m else ''
+    if '/Interface:' in linked:
         return 'interface-body'
     if '%' in name:
         return 'type-bound'
-    return 'contained'
+    if linked and linked.rsplit('/', 1)[0] == table_path:
+        return 'contained-registration'      # the entry that __setstate__ promises to restore
+    return 'enriched-entry'                  # a copy of the entry in another scope (enrich()), link dropped by design
 
 
 def round_trip(obj, label, res, witness, second):
@@ -260,13 +271,21 @@ def round_trip(obj, label, res, witness, second):
             if x == y:
                 continue
             if x is not None and y is not None and norm_links(ta[n_], 'drop') == norm_links(tb_[n_], 'drop'):
-                link_loss.setdefault(classify_link_loss(n_, x), []).append(f'{p}[{n_}]: {x} -> {y}')
+                link_loss.setdefault(classify_link_loss(n_, ta[n_], p), []).append(f'{p}[{n_}]: {x} -> {y}')
             else:
                 other.append(f'{p}[{n_}]: {x} -> {y}')
     if other:
         viol(f'pickle:tables-differ:{kind}', f'symbol tables differ: {other[:3]} ({len(other)} entries)', entries=other[:20])
-    if eq is False:
-        viol(f'pickle:not-equal:{kind}', 'unpickled object does not compare == to the original')
+    if eq is False and getattr(obj, 'parent', None) is not None:
+        # a routine pickled without its enclosing module: symbols of the parent scope become deferred (documented:
+        # _parent is not pickled), == is not required
+        cnt['eq_not_required_parent_dropped'] = cnt.get('eq_not_required_parent_dropped', 0) + 1
+    elif eq is False:
+        # cause: if code and tables agree once procedure links are disregarded, the difference is the dropped link
+        same_wo_links = snap['code'] == before['code'] and not other
+        cause = 'procedure-link-dropped' if same_wo_links else kind
+        viol(f'pickle:not-equal:{cause}', 'unpickled object does not compare == to the original'
+             + (' (only ProcedureType._procedure links differ)' if same_wo_links else ''))
     # ---- symbols attached to unpickled scopes, same types
     own_o = us.own_map(us.scope_tree(obj))
     tree_c = us.scope_tree(copy)
@@ -290,6 +309,9 @@ def round_trip(obj, label, res, witness, second):
             p = own_o[id(sc)]
             intrinsic = bool(getattr(v.type, 'is_intrinsic', False)) if v.type is not None else False
             ok_scope = sc2 is path_c.get(p) or (intrinsic and sc2 is not None and id(sc2) in own_c)
+            if not ok_scope and sc2 is not None and id(sc2) in own_c and own_c[id(sc2)].startswith(p + '/') \
+                    and v2.name in sc2.symbol_attrs:
+                ok_scope = True      # attached to an inner scope of the copy that holds an (enriched) entry of the name
             if not ok_scope:
                 where = 'None' if sc2 is None else own_c.get(id(sc2), 'a scope outside the copy')
                 upath = own_o.get(id(u1), '')
@@ -307,7 +329,10 @@ def round_trip(obj, label, res, witness, second):
             if d1 != d2:
                 if d1 is not None and d2 is not None and \
                         norm_links(us.attr_dump(t1, own_o), 'drop') == norm_links(us.attr_dump(t2, own_c), 'drop'):
-                    link_loss.setdefault(classify_link_loss(str(v).lower(), d1), []).append(f'{v2} in {u2.name}: {d1} -> {d2}')
+                    k = classify_link_loss(str(v).lower(), us.attr_dump(t1, own_o), p)
+                    if k == 'contained-registration' and sc2 is not path_c.get(p):
+                        k = 'enriched-entry'       # the copy resolves through a shadowing entry of an inner scope
+                    link_loss.setdefault(k, []).append(f'{v2} in {u2.name}: {d1} -> {d2}')
                 else:
                     bad_type.append(f'{v2} in {u2.name}: {d1} -> {d2}')
         if foreign:
@@ -327,7 +352,14 @@ def round_trip(obj, label, res, witness, second):
         else:
             for x, y in zip(links_before, links_after):
                 if x[2].startswith('own') and (y[2] != x[2] or y[3] != x[3]):
-                    k = 'interface-body' if x[2] == 'own-iface' else ('type-bound' if '%' in x[1] else 'contained')
+                    if x[2] == 'own-iface':
+                        k = 'interface-body'
+                    elif '%' in x[1]:
+                        k = 'type-bound'
+                    else:
+                        # resolved through the scope that holds the registration of the contained procedure, or
+                        # through a shadowing (enriched) entry in an inner scope?
+                        k = 'contained-registration' if y[5] == x[4].rsplit('/', 1)[0] else 'enriched-entry'
                     link_loss.setdefault(k, []).append(f'call {x[1]} in {x[0]}: routine {x[3]} ({x[2]}) -> {y[3] or "DEFERRED"} ({y[2]})')
     except Exception as e:
         viol(f'pickle:call-links-unobservable:{type(e).__name__}', str(e)[:200])
@@ -414,7 +446,7 @@ def run_case(idx, rng, tier, ctx):
         res['features'].append('target-' + type(obj).__name__ + ('-enriched' if skind == 'scheduler' else ''))
         # a second round trip of objects that contain a Module only in the repickle slice (known finding Module._ast)
         has_module = any(isinstance(x, Module) for _, x in us.scope_tree(obj))
-        second = (not has_module) or sl in ('repickle_module', 'all', 'corpus')
+        second = (not has_module) or sl in ('repickle_module', 'all')
         nsym += round_trip(obj, label, res, witness, second)
     if tmpdir is not None:
         shutil.rmtree(tmpdir, ignore_errors=True)
